@@ -168,7 +168,10 @@ func typeof(i interface{}) reflect.Type {
 func uuidExt(name string) (uuid, ext string) {
 	s := strings.SplitN(name, ".", 2)
 	uuid = s[0]
-	ext = fmt.Sprintf(".%s", s[1])
+	// a file name may have no extension at all
+	if len(s) > 1 {
+		ext = fmt.Sprintf(".%s", s[1])
+	}
 	return
 }
 
